@@ -1049,4 +1049,67 @@ func c08funnels(c *Ctx) {
 		c.R.Check(reaches(f), rule, en.pkg+"."+en.fn, "the entry point decodes through (*Unmarshaler).unmarshalWithFullName — the one place where tags are validated (no second, unvalidated decoding path)", posOf(c, f), "the validating unmarshaller is not reachable from this entry point over static calls", nil, 1)
 	}
 	c.R.Min(rule, 12, "httpx parsers, conf loaders, mapping entry points")
+	// R5b must-pass: the thin request-side wrappers do not answer "ok" on their own. On every path the
+	// error they return is the validating unmarshaller's verdict (the result of a call that reaches it)
+	// or the non-nil error of an earlier step. A shortcut such as "no path variables, nothing to do"
+	// skips the required-field, default, range and options handling for that source (seed r3-C08-2).
+	rule = "C08.R5b"
+	for _, en := range []struct{ pkg, fn string }{
+		{"rest/httpx", "ParseForm"}, {"rest/httpx", "ParseHeaders"}, {"rest/httpx", "ParseJsonBody"}, {"rest/httpx", "ParsePath"},
+		{"rest/internal/encoding", "ParseHeaders"},
+	} {
+		f := c.fn(rule, en.pkg, en.fn)
+		if f == nil {
+			continue
+		}
+		ps := c.paths(rule, f, px.Config{MaxVisits: 2})
+		c.forall(rule, en.pkg+"."+en.fn, "every return hands back the verdict of the validating unmarshaller, or the error of a step that failed before it", f, ps, func(p *px.Path) (bool, string) {
+			if p.Exit != px.ExitReturn || len(p.Results) == 0 {
+				return true, ""
+			}
+			r := p.Results[len(p.Results)-1].Strip(false)
+			if r.Kind == px.KExtract && r.X != nil {
+				r = r.X.Strip(false)
+			}
+			if r.Kind == px.KCall && r.Call != nil {
+				if r.Call.Static != nil && reaches(r.Call.Static) {
+					return true, ""
+				}
+			}
+			if p.Abs(p.Results[len(p.Results)-1]).K == px.NonNil {
+				return true, ""
+			}
+			return false, "returns " + p.Results[len(p.Results)-1].Describe() + " without having asked the validating unmarshaller: required fields, defaults, ranges and options of this source are not enforced on this path"
+		})
+	}
+	c.R.Min(rule, 5, "httpx.ParseForm/ParseHeaders/ParseJsonBody/ParsePath, encoding.ParseHeaders")
+	// Parse: a request that is accepted went through the body parser, and through all three of
+	// path, form and headers unless the target is a list
+	if f := c.fn(rule, "rest/httpx", "Parse"); f != nil {
+		ps := c.paths(rule, f, px.Config{})
+		c.forall(rule, "rest/httpx.Parse", "an accepted request was parsed from the body and — unless the target is an array/slice — from path, form and headers", f, ps, func(p *px.Path) (bool, string) {
+			if p.Exit != px.ExitReturn {
+				return true, ""
+			}
+			n := map[string]int{}
+			var last *px.Event
+			for _, e := range p.All(px.KindIs(px.EvCall)) {
+				if e.Call.Static != nil && e.Call.Static.Pkg == f.Pkg && strings.HasPrefix(e.Call.Static.Name(), "Parse") {
+					n[e.Call.Static.Name()]++
+					last = e
+				}
+			}
+			// a path that returns the error of the sub-parser it called last is a failure path
+			if last != nil && p.Results[0].Strip(false) == last.Res.Strip(false) && p.Abs(last.Res).K != px.Nil {
+				return true, ""
+			}
+			if n["ParseJsonBody"] != 1 {
+				return false, fmt.Sprintf("accepts without parsing the body (ParseJsonBody ×%d)", n["ParseJsonBody"])
+			}
+			if !(n["ParsePath"] == n["ParseForm"] && n["ParseForm"] == n["ParseHeaders"] && n["ParsePath"] <= 1) {
+				return false, fmt.Sprintf("path/form/headers are not parsed alike (ParsePath ×%d, ParseForm ×%d, ParseHeaders ×%d)", n["ParsePath"], n["ParseForm"], n["ParseHeaders"])
+			}
+			return true, ""
+		})
+	}
 }
